@@ -254,6 +254,8 @@ func genSub(r *Rng) *Sub {
 	return s
 }
 
+var richShapes = false
+
 func genContainers(r *Rng, x *Rec) {
 	switch r.Intn(3) {
 	case 1:
@@ -283,7 +285,17 @@ func genContainers(r *Rng, x *Rec) {
 	if r.Bool() {
 		x.AS = [2][]int{{r.Intn(9), r.Intn(9)}, nil}
 	}
-	switch r.Intn(4) {
+	n := 4
+	if richShapes {
+		n = 7 // struct / pointer / array values held in an interface (C14 only: a JSON round trip changes their dynamic type)
+	}
+	switch r.Intn(n) {
+	case 4:
+		x.Any = Sub{V: r.Intn(9), L: []int{r.Intn(9)}} // a struct value held in an interface
+	case 5:
+		x.Any = &Sub{V: r.Intn(9), L: []int{r.Intn(9), 2}}
+	case 6:
+		x.Any = [2]*Sub{{V: 1, L: []int{3}}, nil}
 	case 1:
 		x.Any = "str"
 	case 2:
